@@ -172,7 +172,7 @@ var c10Unary = []func(Object) (Object, error){
 //verif:timeout 600 3600
 //verif:maxpaths 400000 4000000
 //verif:runinit github.com/go-python/gpython/py.init@type.go:1 github.com/go-python/gpython/py.init@exception.go:1
-//verif:havoc math.Pow math.Mod math/cmplx.Pow math.Exp math.Log math.Sincos math.Sin math.Cos math.Atan2
+//verif:havoc math.Pow math.Mod math/cmplx.Pow math.Exp math.Log math.Sincos math.Sin math.Cos math.Atan2 strconv.FormatFloat strconv.AppendFloat strconv.ParseFloat
 //verif:expect called
 func VerifC10Unary() {
 	a := VerifC10Value("a")
@@ -200,7 +200,7 @@ var c10Binary = []func(a, b Object) (Object, error){
 //verif:timeout 600 3600
 //verif:maxpaths 600000 6000000
 //verif:runinit github.com/go-python/gpython/py.init@type.go:1 github.com/go-python/gpython/py.init@exception.go:1
-//verif:havoc math.Pow math.Mod math/cmplx.Pow math.Exp math.Log math.Sincos math.Sin math.Cos math.Atan2
+//verif:havoc math.Pow math.Mod math/cmplx.Pow math.Exp math.Log math.Sincos math.Sin math.Cos math.Atan2 strconv.FormatFloat strconv.AppendFloat strconv.ParseFloat
 //verif:expect called
 func VerifC10Binary() {
 	a, b := c10Pair()
@@ -226,7 +226,7 @@ var c10EdgeInts = []Object{Int(0), Int(1), Int(-1), Int(2), Int(63), Int(64), In
 //verif:encoding int
 //verif:maxpaths 100000 1000000
 //verif:runinit github.com/go-python/gpython/py.init@type.go:1 github.com/go-python/gpython/py.init@exception.go:1
-//verif:havoc math.Pow math.Mod
+//verif:havoc math.Pow math.Mod strconv.FormatFloat strconv.AppendFloat strconv.ParseFloat
 //verif:expect called
 func VerifC10IntArith() {
 	var sym Object
@@ -280,7 +280,7 @@ var c10Ternary = []func(a, b, c Object) (Object, error){
 //verif:timeout 600 3600
 //verif:maxpaths 600000 8000000
 //verif:runinit github.com/go-python/gpython/py.init@type.go:1 github.com/go-python/gpython/py.init@exception.go:1
-//verif:havoc math.Pow math.Mod math/cmplx.Pow math.Exp math.Log math.Sincos math.Sin math.Cos math.Atan2
+//verif:havoc math.Pow math.Mod math/cmplx.Pow math.Exp math.Log math.Sincos math.Sin math.Cos math.Atan2 strconv.FormatFloat strconv.AppendFloat strconv.ParseFloat
 //verif:expect called
 func VerifC10Ternary() {
 	a, b := c10Pair()
